@@ -49,6 +49,9 @@ bool rsValuesFacet::SetStructureData(const EntityUID target, const object::Struc
 }
 
 bool rsValuesFacet::CheckBasicElements(const object::StructuredData& data, const rslang::Typification& type) const {
+  if (data.Structure() != type.Structure()) {
+    return false;
+  }
   switch (data.Structure()) {
   default:
   case ccl::rslang::StructureType::basic: {
@@ -66,6 +69,9 @@ bool rsValuesFacet::CheckBasicElements(const object::StructuredData& data, const
     return true;
   }
   case ccl::rslang::StructureType::tuple: {
+    if (data.T().Arity() != type.T().Arity()) {
+      return false;
+    }
     for (auto i = rslang::Typification::PR_START; i < data.T().Arity() + rslang::Typification::PR_START; ++i) {
       if (!CheckBasicElements(data.T().Component(i), type.T().Component(i))) {
         return false;
@@ -174,7 +180,9 @@ void rsValuesFacet::PruneStructure(const EntityUID target) {
   }
   // NOLINTNEXTLINE(bugprone-exception-escape, bugprone-unchecked-optional-access)
   const auto& type = std::get<rslang::Typification>(typeValue.value());
-  if (!oldData->IsCollection()) {
+  if (oldData->Structure() != type.Structure()) {
+    ResetFor(target); // Note: typification changed its shape, old data cannot be pruned
+  } else if (!oldData->IsCollection()) {
     if (!CheckBasicElements(oldData.value(), type)) {
       storage->Erase(target);
     }
